@@ -300,6 +300,26 @@ func foreignMsg(sim *tikvsim.Sim, e event, dropped *pdpb.RegionHeartbeatResponse
 
 // exec runs one event on the real code; returns the Coq event term and the observation
 func (w *world) exec(e event) (string, obs) {
+	// a replayed history may name operators that were never built on this tree (the history was recorded on another
+	// one): such references are dropped, an event left without operator is not part of the history
+	exists := func(id int) bool { return id >= 1 && id <= len(w.ops) && w.ops[id-1] != nil }
+	switch e.K {
+	case "add", "addw":
+		var ids []int
+		for _, id := range e.IDs {
+			if exists(id) {
+				ids = append(ids, id)
+			}
+		}
+		if len(ids) == 0 {
+			return "", obs{}
+		}
+		e.IDs = ids
+	case "remove", "poke", "age", "slow":
+		if !exists(e.ID) {
+			return "", obs{}
+		}
+	}
 	switch e.K {
 	case "region":
 		meta := &metapb.Region{Id: e.Rid, StartKey: []byte(fmt.Sprintf("k%02d", e.Rid)), EndKey: []byte(fmt.Sprintf("k%02d", e.Rid+1)),
